@@ -206,11 +206,15 @@ def fallback_to_burn(prog, X, H, send, burns):
     for b in burns:
         a = b.args[1]
         if a[0] in ('m', 'c') and not a[1][1]:
-            burn_locals.add(a[1][0])
-            # follow one move
-            for d in H.defs.get(a[1][0], []):
-                if d[0] == '=' and d[4][0] == 'use' and d[4][1][0] in ('m', 'c') and not d[4][1][1][1]:
-                    burn_locals.add(d[4][1][1][0])
+            work = [a[1][0]]
+            while work and len(burn_locals) < 12:
+                l = work.pop()
+                if l in burn_locals:
+                    continue
+                burn_locals.add(l)
+                for d in H.defs.get(l, []):     # follow moves / copies back to the variable that is accumulated into
+                    if d[0] == '=' and d[4][0] == 'use' and d[4][1][0] in ('m', 'c') and not d[4][1][1][1]:
+                        work.append(d[4][1][1][0])
     # Err arm: a variant condition on a value deriving from this send
     for c in conds(H, S):
         if c.kind != 'variant':
